@@ -160,8 +160,13 @@ func (language *Language) CompilerPasses() compiler.Passes {
 		&compiler.UndiscriminatedDisjunctionToAny{},
 		&compiler.DisjunctionToType{},
 		// members named after operators (`"<"`, `">"`) or names that only differ by case
-		&compiler.EnumMemberIdentifiers{Language: LanguageRef, Identifier: enumMemberIdentifier},
+		&compiler.EnumMemberIdentifiers{Language: LanguageRef, Identifier: enumMemberIdentifier, EnumIdentifier: enumIdentifier},
 	}
+}
+
+// enumIdentifier gives the name of the type declared for an enum.
+func enumIdentifier(object ast.Object) string {
+	return formatObjectName(object.Name)
 }
 
 // enumMemberIdentifier gives the name of the constant declared for an enum member.
